@@ -236,6 +236,34 @@ func runC19Direct(c *Ctx) (pairs, crossKind int, bad []string, samples []interfa
 			samples = append(samples, map[string]string{"a": a.Desc, "b": nums[len(nums)-1].Desc, "operators": "< == > <= >= != and mirrors"})
 		}
 	}
+	// negative zero: equal to zero under every operator, whatever its bits
+	{
+		nz := math.Copysign(0, -1)
+		var zs []cmpOperand
+		for _, w := range wraps {
+			zs = append(zs,
+				cmpOperand{Desc: "float64(-0)/" + w, V: wrapValue(reflect.ValueOf(nz), w), Rat: new(big.Rat), Fam: "num", Kind: reflect.Float64, F64Exact: true, IsFloat: true, Wrap: w},
+				cmpOperand{Desc: "float32(-0)/" + w, V: wrapValue(reflect.ValueOf(float32(nz)), w), Rat: new(big.Rat), Fam: "num", Kind: reflect.Float32, F64Exact: true, IsFloat: true, Wrap: w})
+		}
+		for _, a := range zs {
+			for _, b := range nums {
+				if !b.F64Exact {
+					continue
+				}
+				pairs += 2
+				crossKind += 2
+				bad = append(bad, checkPair(a, b, a.Rat.Cmp(b.Rat), true)...)
+				bad = append(bad, checkPair(b, a, b.Rat.Cmp(a.Rat), true)...)
+				if len(bad) > 50 {
+					return
+				}
+			}
+			for _, b := range zs {
+				pairs++
+				bad = append(bad, checkPair(a, b, 0, true)...)
+			}
+		}
+	}
 	// integers that float64 can not hold exactly, next to floats: consistency of the six
 	// operators and of the mirrored comparison only
 	{
